@@ -16,7 +16,7 @@ theorem slotat_highwater (c : Ctx) (x : Int) : (slotat c x).2.highwater = c.high
 theorem J.is_mem {c : Ctx} {l : List Nat} (h : J c l) {i : Nat} (hi : c.is = some i) (hd : ¬ (c.seg.get i).deleted = true) : i ∈ l := by
   have hio := h.isok
   rw [hi] at hio
-  rcases hio with h0 | ⟨i', h1, h2⟩ | ⟨d, h1, h2, h3, h4, h5⟩
+  rcases hio with h0 | ⟨i', h1, h2⟩ | ⟨d, h1, h2, h3, h4, h5, h6⟩
   · cases h0
   · cases h1; exact h2
   · cases h1; exact absurd h3 hd
@@ -164,11 +164,11 @@ theorem tempCopy_PS (c : Ctx) (h : PS c) : OutcomeP PS (opTempCopy c) := by
         · rw [get_upd_ne _ _ _ _ (fun hh => hkl (by rw [← hh]; exact hj'))]; exact c1.live j hj'
         · rw [get_upd_ne _ _ _ _ (fun hh => hkf (by rw [← hh]; exact hf))]; exact c1.freeClean f hf
       · simp only [setCell_seg, withSeg_seg, setCell_is, withSeg_is]
-        rcases i1 with h0 | h0 | ⟨d, h1, h2, h3, h4, h5⟩
+        rcases i1 with h0 | h0 | ⟨d, h1, h2, h3, h4, h5, h6⟩
         · exact .inl h0
         · exact .inr (.inl h0)
         · have hdk : d ≠ k := fun hh => by rw [hh, hkd] at h3; cases h3
-          exact .inr (.inr ⟨d, h1, h2, by rw [get_upd_ne _ _ _ _ hdk]; exact h3, by rw [get_upd_ne _ _ _ _ hdk]; exact h4, by rw [get_upd_ne _ _ _ _ hdk]; exact h5⟩)
+          exact .inr (.inr ⟨d, h1, h2, by rw [get_upd_ne _ _ _ _ hdk]; exact h3, by rw [get_upd_ne _ _ _ _ hdk]; exact h4, by rw [get_upd_ne _ _ _ _ hdk]; exact h5, by rw [get_upd_ne _ _ _ _ hdk]; exact h6⟩)
     · trivial
   · exact die_PS c h
 
